@@ -460,6 +460,38 @@ Definition iirfilter_gen_step {F A : Type} (filt : F -> A -> F * A) (finit : A -
     iirfilter_gen_body filt finit zo chunk
   end.
 
+(* ---------------- pipeline.auto_th (line 1177) ---------------- *)
+Definition auto_th_gen_body {A T O : Type} (thr : list A -> T) (ge : T -> A -> O) (baseline_samples : Z) (auto_th : T) (data : blk A)
+  : option ((option (blk A) + T) * list (blk O)) :=
+  let outs : list (blk O) := [] in
+  let result := map_blk (ge auto_th) data in
+  let outs := outs ++ [result] in
+  Some (inr auto_th, outs).
+
+Definition auto_th_gen_spool {A T O : Type} (thr : list A -> T) (ge : T -> A -> O) (baseline_samples : Z) (data : blk A)
+  : option ((option (blk A) + T) * list (blk O)) :=
+  if (zlen (dat data) <? baseline_samples) then
+    Some (inl (Some data), []) (* keeps spooling *)
+  else
+    let auto_th := thr (py_slice None (Some baseline_samples) (dat data)) in
+    auto_th_gen_body thr ge baseline_samples (auto_th) data.
+
+Definition auto_th_gen_step {A T O : Type} (thr : list A -> T) (ge : T -> A -> O) (baseline_samples : Z) (st : option (blk A) + T) (chunk : blk A)
+  : option ((option (blk A) + T) * list (blk O)) :=
+  match st with
+  | inl None =>
+    let data := chunk in
+    auto_th_gen_spool thr ge baseline_samples data
+  | inl (Some data) =>
+    match concat2 data chunk with
+    | None => None
+    | Some data =>
+      auto_th_gen_spool thr ge baseline_samples data
+    end
+  | inr auto_th =>
+    auto_th_gen_body thr ge baseline_samples auto_th chunk
+  end.
+
 (* ---------------- self-test instances ---------------- *)
 Definition gcheck_discard (d : Z) h s0 sizes got : bool :=
   eqb_outs (outs_of (run (discard_gen_step d) (@discard_gen_init Z d) (inputs h s0 sizes))) got.
@@ -483,3 +515,5 @@ Definition gcheck_mc_reference h s0 sizes got : bool :=
   eqb_outs (outs_of (run (mc_reference_gen_step (fun x : Z => x)) (mc_reference_gen_init (fun x : Z => x)) (inputs h s0 sizes))) got.
 Definition gcheck_iirfilter h s0 sizes got : bool :=
   eqb_outs (outs_of (run (iirfilter_gen_step sfilt sfinit) None (inputs h s0 sizes))) got.
+Definition gcheck_auto_th (Bn : Z) (table : list Z) h s0 sizes got : bool :=
+  eqb_outs (outs_of (run (auto_th_gen_step (sthr Bn) (sge table) Bn) (inl None) (inputs h s0 sizes))) got.
